@@ -14,30 +14,30 @@ package aspect_elimination
 //@ spec aeImportance(l model.BiasListener, p *model.DecisionMakingParams, id string) real = p.MethodParameters.(AspectEliminationHeuristicParams).Weights[id]
 
 //@ func (*AspectEliminationHeuristicParams).with
-//@   property C07 C01 C12 C15 C18
+//@   property C07 C01 C12 C15 C18 C09 C19 C20
 //@   nopanic
 //@   ensures [replaced] result.Params == params && result.Weights == *weights && result.Function == a.Function && result.RandomSeed == a.RandomSeed
 //@             && result.RandomAlternativesOrdering == a.RandomAlternativesOrdering
 
 //@ func (*AspectEliminationBiasListener).OnCriteriaRemoved
-//@   property C07 C15
+//@   property C07 C15 C01 C09 C20
 //@   refines model.BiasListener.OnCriteriaRemoved with validParams=aeValid, coversId=aeCovers
 //@   ensures [weights_restricted] forall k int :: 0 <= k && k < len(*leftCriteria) ==>
 //@             result.(AspectEliminationHeuristicParams).Weights[(*leftCriteria)[k].Id] == params.(AspectEliminationHeuristicParams).Weights[(*leftCriteria)[k].Id]
 //@   ensures [no_weight_left_for_an_omitted_criterion] forall q string :: q in result.(AspectEliminationHeuristicParams).Weights ==> exists k int :: 0 <= k && k < len(*leftCriteria) && (*leftCriteria)[k].Id == q
 
 //@ func (*AspectEliminationBiasListener).OnCriterionAdded
-//@   property C07 C18
+//@   property C07 C18 C01 C09 C19 C20
 //@   fnparam generator ensures 0.0 <= result && result < 1.0
 //@   refines model.BiasListener.OnCriterionAdded with validParams=aeValid, coversId=aeCovers, accepts=aeAccepts, acceptsAny=aeAcceptsAny
 //@   ensures [weight_is_fraction_of_reference] model.fractionOf(result.(aspectEliminationAddedCriterion).Weights[criterion.Id], params.(AspectEliminationHeuristicParams).Weights[referenceCriterion.Id])
 
 //@ func (*AspectEliminationBiasListener).Merge
-//@   property C07 C18
+//@   property C07 C18 C01 C09 C19 C20
 //@   refines model.BiasListener.Merge with validParams=aeValid, coversId=aeCovers, accepts=aeAccepts, acceptsAny=aeAcceptsAny
 
 //@ func (*AspectEliminationBiasListener).RankCriteriaAscending
-//@   property C15 C07 C16 C18 C19
+//@   property C15 C07 C16 C18 C19 C01 C09 C20
 //@   refines model.BiasListener.RankCriteriaAscending with validParams=aeValid, coversId=aeCovers, imp=aeImportance
 
 // ---- the heuristic's building blocks (C12)
@@ -46,12 +46,12 @@ package aspect_elimination
 //@ spec thresholdOf(t model.Weights, id string) real = id in t ? t[id] : 0.0
 
 //@ func isBellowThreshold
-//@   property C12 C01 C14
+//@   property C12 C01 C14 C20
 //@   panics_iff [missing] !(criterion.Id in a.Criteria)
 //@   ensures [below] result <==> model.signed(*a, *criterion) < thresholdOf(*thresholds, criterion.Id) * model.mult(*criterion)
 
 //@ func makeWeightPair
-//@   property C12 C01 C14
+//@   property C12 C01 C14 C20
 //@   ensures [single_threshold] fresh(result) && criterion.Id in result && result[criterion.Id] == thresholdOf(*weights, criterion.Id) && forall q string :: q in result ==> q == criterion.Id
 
 //@ pred eliminatedAt(r model.AlternativeResult, alt model.AlternativeWithCriteria, level int, thresholds model.Weights) =
@@ -59,7 +59,7 @@ package aspect_elimination
 //@   && r.Evaluation.(AspectEliminationEvaluation).ThresholdsIndex == level && r.Evaluation.(AspectEliminationEvaluation).NotSatisfiedThreshold == thresholds
 
 //@ func updateResult
-//@   property C12 C01 C14
+//@   property C12 C01 C14 C20
 //@   requires 0 <= resultInsertIndex && resultInsertIndex < len(result) && resultInsertIndex < len(resultIds) && arr(result) != 0
 //@   assigns result, resultIds
 //@   ensures [slot_written] eliminatedAt(result[resultInsertIndex], alternative, alternativeValue, *thresholds) && resultIds[resultInsertIndex] == alternative.Id
@@ -68,7 +68,7 @@ package aspect_elimination
 //@             && (forall k int :: 0 <= k && k < len(resultIds) && k != resultInsertIndex ==> resultIds[k] == old(resultIds[k]))
 
 //@ func fillRemainingAlternatives
-//@   property C12 C01 C14
+//@   property C12 C01 C14 C20
 //@   requires len(leftToChoice) <= len(result) && len(leftToChoice) <= len(resultIds) 
 //@   assigns result, resultIds
 //@   ensures [survivors_on_top] forall k int :: 0 <= k && k < len(leftToChoice) ==> result[k].Alternative == leftToChoice[k] && resultIds[k] == leftToChoice[k].Id
@@ -89,8 +89,9 @@ package aspect_elimination
 //@      exists j int :: 0 <= j && j < len(cs) && cs[j].Criterion.Id in nst && model.signed(alt, cs[j].Criterion) < nst[cs[j].Criterion.Id] * model.mult(cs[j].Criterion)
 
 //@ func checkWithinSatisfactionLevels
-//@   property C12 C01 C14
+//@   property C12 C01 C14 C20
 //@   requires [distinct_alternatives] distinctIds(*considered)
+//@   returnhint [levels_are_tried_until_one_is_left_or_the_series_ends] len(leftToChoice) <= 1 || !last_HasNext
 //@   ensures [every_alternative_once] fresh(result1) && fresh(result2) && len(result1) == len(*considered) && len(result2) == len(*considered)
 //@             && len(result0) <= len(*considered) && distinctIds(result0) && (len(*considered) >= 1 ==> len(result0) >= 1)
 //@   ensures [survivors_are_inputs] forall k int :: 0 <= k && k < len(result0) ==> fromInput(result0[k], *considered)
@@ -134,7 +135,7 @@ package aspect_elimination
 
 // criteria from the heaviest weight down (ties in any order: the seeded generator breaks them)
 //@ func sortCriteria
-//@   property C12 C01 C14
+//@   property C12 C01 C14 C20
 //@   fnparam generator ensures 0.0 <= result && result < 1.0
 //@   ensures [heaviest_first] forall i int, j int :: 0 <= i && i < j && j < len(result) ==> result[i].Weight >= result[j].Weight
 //@   ensures [the_methods_criteria] len(result) == len(dmp.Criteria) && forall k int :: 0 <= k && k < len(result) ==> exists j int :: 0 <= j && j < len(dmp.Criteria) && result[k].Criterion == dmp.Criteria[j] && result[k].Weight == params.Weights[dmp.Criteria[j].Id]
@@ -148,7 +149,7 @@ package aspect_elimination
 //@             && result.(AspectEliminationHeuristicParams).RandomAlternativesOrdering == (decoded_has(dm.MethodParameters, "RandomAlternativesOrdering") && decoded_bool(dm.MethodParameters, "RandomAlternativesOrdering"))
 
 //@ func (*AspectEliminationHeuristic).Evaluate
-//@   property C12 C14 C01
+//@   property C12 C14 C01 C20
 //@   fnparam .generator pure
 //@   requires [parameters] typeis(dmp.MethodParameters, AspectEliminationHeuristicParams)
 //@   returnhint [generator_seeded_with_the_requests_seed] generator == appfn(a.generator, params.RandomSeed)
@@ -198,16 +199,16 @@ package aspect_elimination
 
 // ---- registered names (what a request must say to select this object; what error messages list)
 //@ func (*AspectEliminationBiasListener).Identifier
-//@   property C07 C20
+//@   property C07 C20 C01 C03 C04 C05 C06 C08 C09 C11 C12 C13 C14 C15 C16 C17 C18 C19
 //@   nopanic
 //@   ensures [name] result == "aspectEliminationHeuristic"
 
 // ---- registered names (what a request must say to select this object; what error messages list)
 //@ func (*AspectEliminationHeuristic).Identifier
-//@   property C01 C12 C20
+//@   property C01 C12 C20 C03 C04 C05 C06 C07 C08 C09 C11 C13 C14 C15 C16 C17 C18 C19
 //@   nopanic
 //@   ensures [name] result == "aspectEliminationHeuristic"
 
 //@ func (*AspectEliminationBiasListener).getMethodParams
-//@   property C07 C12 C15 C18
+//@   property C07 C12 C15 C18 C01 C09 C19 C20
 //@   ensures [listener_of_the_requests_level_source] pParams.Function in a.satisfactionLevelsUpdateListeners.Listeners && result0 == a.satisfactionLevelsUpdateListeners.Listeners[pParams.Function]
